@@ -346,10 +346,17 @@ class SimNet:
         factory, server, sock = lst
         loop = self.loop
         cproto = protocol_factory()
-        ct = SimTransport(self, loop, cproto, "client", extra={"peername": addr, "sockname": ("client", len(self.conns)), "socket": None})
+        k = len(self.conns)
+        if family == socket.AF_UNIX:
+            # like real unnamed unix client sockets: every client's name is the empty string
+            c_sock, c_peer, s_sock, s_peer = "", addr, addr, ""
+        else:
+            eph = (addr[0], 40000 + k)
+            c_sock, c_peer, s_sock, s_peer = eph, addr, addr, eph
+        ct = SimTransport(self, loop, cproto, "client", extra={"peername": c_peer, "sockname": c_sock, "socket": None})
         sproto = factory()
         st = SimTransport(self, loop, sproto, "server", server=server,
-                          extra={"peername": ("client", len(self.conns)), "sockname": addr, "socket": None})
+                          extra={"peername": s_peer, "sockname": s_sock, "socket": None})
         ct.peer, st.peer = st, ct
         try:
             ct.owner_task = asyncio.current_task()
